@@ -424,65 +424,7 @@ func runC03(c *Check) {
 	}
 
 	// ---- R5 memo reset per source
-	mg := tree["Merge"]
-	var mapCalls []ssa.Instruction
-	resets := map[string]ssa.Instruction{}
-	fresh := map[string]bool{}
-	for _, b := range mg.Blocks {
-		for _, ins := range b.Instrs {
-			if call, ok := ins.(*ssa.Call); ok {
-				if sc := call.Call.StaticCallee(); sc != nil && (sc.Name() == "mapSample" || sc.Name() == "mapMapping") {
-					mapCalls = append(mapCalls, call)
-				}
-			}
-		}
-	}
-	for _, F := range []string{"locationsByID", "functionsByID", "mappingsByID"} {
-		F := F
-		for _, es := range effectiveSites(mg, func(ins ssa.Instruction) bool {
-			st, ok := ins.(*ssa.Store)
-			if !ok {
-				return false
-			}
-			fa, ok := st.Addr.(*ssa.FieldAddr)
-			if !ok {
-				return false
-			}
-			T, G := fieldOf(fa.X.Type(), fa.Field)
-			return T == "profile.profileMerger" && G == F
-		}, 2) {
-			if loopDepth(es.at.Block()) == 0 {
-				continue
-			}
-			resets[F] = es.at
-			switch v := es.actual.(*ssa.Store).Val.(type) {
-			case *ssa.MakeMap:
-				fresh[F] = true
-			case *ssa.Call:
-				fresh[F] = v.Call.StaticCallee() != nil && strings.HasPrefix(v.Call.StaticCallee().Name(), "make")
-			}
-		}
-	}
-	for _, F := range []string{"locationsByID", "functionsByID", "mappingsByID"} {
-		key := "reset:" + F
-		r, ok := resets[F]
-		if !ok {
-			c.bad("C03-R5", key, p.relFile(mg.Pos()), "Merge does not re-create pm."+F+" inside the loop over the inputs: ids of one input would be translated with the table of another")
-			continue
-		}
-		dom := len(mapCalls) > 0
-		for _, mc := range mapCalls {
-			if !instrDominates(r, mc) {
-				dom = false
-			}
-		}
-		// the stored value is a fresh table
-		if dom && fresh[F] {
-			c.ok("C03-R5", key, p.relFile(r.Pos()), "pm."+F+" is re-created for every input", "a fresh table is stored inside the loop and dominates every mapSample/mapMapping call")
-		} else {
-			c.bad("C03-R5", key, p.relFile(r.Pos()), fmt.Sprintf("pm.%s is not reset with a fresh table before the entities of each input are mapped (dominates: %v, fresh: %v)", F, dom, fresh[F]))
-		}
-	}
+	c.perInputTables("C03-R5", tree["Merge"])
 
 	// ---- R8 the merged sample list only grows.  Locations, functions and mappings enter the
 	// result when a sample that uses them is mapped; a sample removed from the list afterwards
@@ -1048,4 +990,103 @@ func positiveIndexTest(cond ssa.Value, hdr *ssa.BasicBlock) (outcome, decided bo
 		return false, true
 	}
 	return false, false
+}
+
+// perInputTables (C03-R5, C07-R6): ids are local to one input, so the tables that translate
+// them (locationsByID, functionsByID, mappingsByID) are emptied for every input before any of
+// its entities is mapped: a fresh table is stored, or the table is cleared, inside the loop
+// over the inputs at a point that dominates every mapSample/mapMapping call.
+func (c *Check) perInputTables(rule string, mg *ssa.Function) {
+	p := c.P
+	var mapCalls []ssa.Instruction
+	resets := map[string]ssa.Instruction{}
+	fresh := map[string]bool{}
+	for _, b := range mg.Blocks {
+		for _, ins := range b.Instrs {
+			if call, ok := ins.(*ssa.Call); ok {
+				if sc := call.Call.StaticCallee(); sc != nil && (sc.Name() == "mapSample" || sc.Name() == "mapMapping") {
+					mapCalls = append(mapCalls, call)
+				}
+			}
+		}
+	}
+	for _, F := range []string{"locationsByID", "functionsByID", "mappingsByID"} {
+		F := F
+		for _, es := range effectiveSites(mg, func(ins ssa.Instruction) bool {
+			st, ok := ins.(*ssa.Store)
+			if !ok {
+				return false
+			}
+			fa, ok := st.Addr.(*ssa.FieldAddr)
+			if !ok {
+				return false
+			}
+			T, G := fieldOf(fa.X.Type(), fa.Field)
+			return T == "profile.profileMerger" && G == F
+		}, 2) {
+			if loopDepth(es.at.Block()) == 0 {
+				continue
+			}
+			resets[F] = es.at
+			switch v := es.actual.(*ssa.Store).Val.(type) {
+			case *ssa.MakeMap:
+				fresh[F] = true
+			case *ssa.Call:
+				fresh[F] = v.Call.StaticCallee() != nil && strings.HasPrefix(v.Call.StaticCallee().Name(), "make")
+			}
+		}
+	}
+	for _, F := range []string{"locationsByID", "functionsByID", "mappingsByID"} {
+		F := F
+		if _, ok := resets[F]; ok {
+			continue
+		}
+		for _, es := range effectiveSites(mg, func(ins ssa.Instruction) bool {
+			call, ok := ins.(*ssa.Call)
+			if !ok {
+				return false
+			}
+			bi, ok := call.Call.Value.(*ssa.Builtin)
+			if !ok || bi.Name() != "clear" || len(call.Call.Args) != 1 {
+				return false
+			}
+			ld, ok := call.Call.Args[0].(*ssa.UnOp)
+			if !ok {
+				return false
+			}
+			fa, ok := ld.X.(*ssa.FieldAddr)
+			if !ok {
+				return false
+			}
+			T, G := fieldOf(fa.X.Type(), fa.Field)
+			return T == "profile.profileMerger" && G == F
+		}, 2) {
+			if loopDepth(es.at.Block()) == 0 {
+				continue
+			}
+			resets[F] = es.at
+			fresh[F] = true
+		}
+	}
+	for _, F := range []string{"locationsByID", "functionsByID", "mappingsByID"} {
+		key := "reset:" + F
+		r, ok := resets[F]
+		if !ok {
+			c.bad(rule, key, p.relFile(mg.Pos()), "Merge does not re-create pm."+F+" inside the loop over the inputs: ids of one input would be translated with the table of another")
+			continue
+		}
+		dom := len(mapCalls) > 0
+		for _, mc := range mapCalls {
+			if !instrDominates(r, mc) {
+				dom = false
+			}
+		}
+		// the stored value is a fresh table
+		if dom && fresh[F] {
+			c.ok(rule, key, p.relFile(r.Pos()), "pm."+F+" is re-created for every input", "a fresh table is stored inside the loop and dominates every mapSample/mapMapping call")
+		} else {
+			c.bad(rule, key, p.relFile(r.Pos()), fmt.Sprintf("pm.%s is not reset with a fresh table before the entities of each input are mapped (dominates: %v, fresh: %v)", F, dom, fresh[F]))
+		}
+	}
+
 }
